@@ -756,3 +756,46 @@ class Sandbox:
 
     def snapshot(self, root=None):
         return tree_snapshot(root or self.root)
+
+    def norm_tree(self, root, roots=None, exclude=(".build",)):
+        """{relative path: sha256 of contents} with every project root path occurring INSIDE files
+        (absolute filelists) replaced, so that trees at different locations compare equal."""
+        roots = roots or (root,)
+        res = {}
+        for base, dirs, files in os.walk(root):
+            dirs[:] = sorted(d for d in dirs if d not in exclude)
+            for f in sorted(files):
+                p = os.path.join(base, f)
+                try:
+                    with open(p, "rb") as fh:
+                        data = fh.read()
+                except OSError:
+                    data = b"<unreadable>"
+                for r_ in sorted(roots, key=len, reverse=True):
+                    data = data.replace(r_.encode(), b"<ROOT>")
+                res[os.path.relpath(p, root)] = hashlib.sha256(data).hexdigest()
+        return res
+
+    def run_vs_clean(self, args, clean_name="clean", extra_env=None):
+        """Run `veryl <args>` in the project and in a fresh copy without `.build`; returns
+        (result, clean result, differences) where differences is a list of
+        (kind in status|diagnostics|tree|panic, description, relative path or None)."""
+        clean_root = self.clone_tree(clean_name)
+        r = self.run(args, extra_env=extra_env)
+        c = self.run(args, root=clean_root)
+        roots = (clean_root, self.root)
+        ti, tc = self.norm_tree(self.root, roots), self.norm_tree(clean_root, roots)
+        diffs = []
+        if r.panic:
+            diffs.append(("panic", "veryl %s panicked: %s" % (" ".join(args), r.stderr[-300:]), None))
+        if r.rc != c.rc:
+            diffs.append(("status", "exit status %s, clean run %s" % (r.rc, c.rc), None))
+        di, dc = r.diagnostics(), c.diagnostics()
+        if di != dc:
+            diffs.append(("diagnostics", "diagnostics differ: only here %s; only clean %s" % (
+                [d for d in di if d not in dc][:3], [d for d in dc if d not in di][:3]), None))
+        for p in sorted(set(ti) | set(tc)):
+            if ti.get(p) != tc.get(p):
+                diffs.append(("tree", "%s differs from the clean run (%s)" % (
+                    p, "missing" if p not in ti else "extra" if p not in tc else "content"), p))
+        return r, c, diffs
